@@ -59,7 +59,7 @@ def check_strings(case):
     except Exception as e:  # noqa: BLE001
         bad("to_list-raised", f"to_list raised {type(e).__name__}: {e}")
     # matrices -> strings
-    for dtype in (np.int8, np.int64):
+    for dtype in (np.int8, np.int64, np.bool_, np.uint8, np.int32):
         try:
             st3 = L.Stabilizer((Rw.astype(dtype), Sw.astype(dtype), pw.astype(dtype)))
             if list(st3.to_list()) != full:
